@@ -623,7 +623,7 @@ public:
             preds.push_back(apply(*expr_pred.second));
         }
         result_ = [=](const double *x) {
-            for (size_t i = 0;; ++i) {
+            for (size_t i = 0; i < preds.size(); ++i) {
                 if (preds[i](x) == 1.0) {
                     return applys[i](x);
                 }
